@@ -11,7 +11,8 @@ BIG = 3000
 def problems(rng: random.Random):
     """(name, problem spec, fullconfig, kinds it suits, solver kwargs per kind)."""
     tab = gen.union(random.Random(11), 4, PD=2, v0max=1, plain=True)
-    uni = gen.unichain(random.Random(12), ns=5, PD=2)
+    uni = gen.unichain(random.Random(12), ns=5, PD=2, v0max=2)
+    uni["render"]["v0_f32"] = True        # initial values supplied in single precision
     ring = gen.ring(random.Random(13), 3, extra=2)
     return {
         "forest": ({"type": "forest", "S": 8, "r1": 4.0, "r2": 2.0, "p": 0.1}, True),
